@@ -824,3 +824,116 @@ Section Cases2.
     - rewrite V1. apply R_Scope; [exact Rb|exact (fi_same _ _ _ Hbfi A2)|exact (fi_same _ _ _ Hfi A1)].
   Qed.
 End Cases2.
+
+Lemma args_inl lx (args : list (expr + (list ast * token))) :
+  forallb (fun x => match x with inl e => printable_expr lx false e | inr _ => false end) args = true ->
+  exists es, args = map (fun e => inl e) es /\ Forall (fun e => printable_expr lx false e = true) es.
+Proof.
+  induction args as [|[e|c] args IH]; cbn [forallb]; intros H.
+  - exists []. split; [reflexivity|constructor].
+  - apply and2 in H as [H1 H2]. destruct (IH H2) as (es & -> & F). exists (e :: es). split; [reflexivity|].
+    constructor; assumption.
+  - discriminate.
+Qed.
+
+Lemma arg_tks_inl (es : list expr) :
+  map arg_tks (map (fun e => inl e : expr + (list ast * token)) es) = map (map etv) es.
+Proof. induction es as [|e es IH]; cbn [map arg_tks]; [reflexivity|]. rewrite IH. reflexivity. Qed.
+
+Lemma mrel_inl (es es' : list expr) : Forall2 (erel sameTV) es es' ->
+  Forall2 (mrel sameTV) (map (fun e => inl e) es) (map (fun e => inl e) es').
+Proof. induction 1; cbn [map]; constructor; [apply M_expr; assumption|assumption]. Qed.
+
+Section Cases3.
+  Variable lx : lexicon.
+  Variable sub : str -> pres (list ast).
+  Local Notation Pst := (Pst lx sub).
+
+  Lemma case_macro n ps b bfi fi : Forall Pst b -> Pst (AMacro n ps b bfi fi).
+  Proof.
+    intros IHb next HP Hn. cbn [pstmt] in HP. apply and6 in HP as (_ & Hid & _ & Hbfi & Hfi & Hb).
+    destruct (stmts_parse lx sub b IHb tRB Hb eq_refl) as (F & H).
+    exists (S (F + 2 * length ps + 3))%nat. intros ts pos f A Hnx HF. destruct f as [|f]; [lia|].
+    cbn [stmt_tks] in *. fold (prog_tks b) in *. fold (params_tks ps) in *.
+    apply At_cons in A as [A0 A]. apply At_cons in A as [A1 A]. apply At_cons in A as [A2 A].
+    apply At_app in A as [Ap A]. apply At_cons in A as [A3 A]. apply At_cons in A as [A4 A].
+    apply At_app in A as [Ab Ar]. apply At_cons in Ar as [Ar _].
+    destruct (tv_is _ _ _ _ A0) as [T0 V0]. destruct (tv_is _ _ _ _ A1) as [T1 V1].
+    destruct (tv_is _ _ _ _ A2) as [T2 _]. destruct (tv_is _ _ _ _ A3) as [T3 _].
+    destruct (tv_is _ _ _ _ A4) as [T4 _].
+    set (q := (S (S (S pos)) + length (params_tks ps))%nat) in *.
+    assert (Apr : At ts (S (S (S pos))) (params_tks ps ++ [tRP])).
+    { apply At_join; [exact Ap|]. cbn [At]. split; [exact A3|exact I]. }
+    pose proof (pmacro_args_at ts sub ps (S (S (S pos))) f Apr ltac:(lia)) as Ea. fold q in Ea.
+    destruct (H ts (S (S q)) f [] Ab Ar ltac:(lia)) as (b' & Rb & B & _). specialize (B eq_refl).
+    exists (AMacro (t_value (cur ts (S pos))) ps b' (cur ts (S q)) (cur ts (S pos))). split.
+    - rewrite (pdecl_kw ts sub f pos T0). unfold pkeyword. cbv zeta. rewrite V0. kwc.
+      unfold pmacro. cbv zeta. unfold expect. rewrite (is_ty_eq _ _ T1), (is_ty_eq _ _ T2). rewrite Ea.
+      cbn [pbind]. rewrite (is_ty_eq _ _ T3), (is_ty_eq _ _ T4). rewrite B.
+      cbn [pbind fst snd app]. f_equal. f_equal. unfold q. ll3.
+    - rewrite V1. apply R_Macro; [exact Rb|exact (fi_same _ _ _ Hbfi A4)|exact (fi_same _ _ _ Hfi A1)].
+  Qed.
+
+  Lemma case_macro_apply n args fi : Pst (AMacroApply n args fi).
+  Proof.
+    intros [nty nv] HP Hn. cbn [pstmt] in HP. apply and3 in HP as (Hid & Hfi & Hargs).
+    destruct (args_inl lx args Hargs) as (es & -> & Hes).
+    exists (length (commas (map (map etv) es)) + length es + 4)%nat.
+    intros ts pos f A Hnx HF. destruct f as [|f]; [lia|].
+    cbn [stmt_tks] in *. rewrite arg_tks_inl in *.
+    apply At_cons in A as [A0 A]. apply At_cons in A as [A1 A]. apply At_app in A as [Ae Ar].
+    apply At_cons in Ar as [Ar _].
+    destruct (tv_is _ _ _ _ A0) as [T0 V0]. destruct (tv_is _ _ _ _ A1) as [T1 _].
+    destruct (tv_is _ _ _ _ Ar) as [Tr _].
+    assert (Hpel : exists es', pel ts sub f (S (S pos)) [] =
+                     POk (map (fun e => inl e) es', (S (S pos) + length (commas (map (map etv) es)))%nat) /\
+                     Forall2 (erel sameTV) es es').
+    { destruct es as [|x es].
+      - exists []. split; [|constructor]. cbn [map commas length] in *. rewrite Nat.add_0_r in *.
+        destruct f as [|f]; [lia|]. rewrite pel_S. cbv zeta. rewrite (is_ty_eq _ _ Tr). reflexivity.
+      - destruct (pel_exprs ts sub lx es x (S (S pos)) f [] Hes Ae) as (es' & E & R).
+        { rewrite Tr. discriminate. } { rewrite Tr. discriminate. } { cbn [length] in HF. lia. }
+        exists es'. split; [exact E|exact R]. }
+    destruct Hpel as (es' & E & R).
+    exists (AMacroApply (t_value (cur ts pos)) (map (fun e => inl e) es') (cur ts pos)). split.
+    - rewrite pdecl_S. unfold pdecl_body. cbv zeta. rewrite T0. cbn [backup].
+      change (peek ts pos) with (cur ts (S pos)). rewrite (is_ty_eq _ _ T1).
+      unfold pmacro_apply. cbv zeta. unfold expect at 1. rewrite (is_ty_eq _ _ T0).
+      unfold pelist. unfold expect at 1. rewrite (is_ty_eq _ _ T1). rewrite E. cbn [pbind].
+      unfold expect. rewrite (is_ty_eq _ _ Tr). cbn [pbind fst snd]. f_equal. f_equal. ll3.
+    - rewrite V0. apply R_MacroApply; [apply mrel_inl; exact R|exact (fi_same _ _ _ Hfi A0)].
+  Qed.
+
+  Lemma case_for v lo hi b bfi fi : Forall Pst b -> Pst (AFor v lo hi b bfi fi).
+  Proof.
+    intros IHb [nty nv] HP Hn. cbn [pstmt] in HP. apply and7 in HP as (_ & Hid & Hlo & Hhi & Hfi & Hbfi & Hb).
+    destruct (stmts_parse lx sub b IHb tRB Hb eq_refl) as (F & H).
+    exists (S (F + length lo + length hi + 3))%nat. intros ts pos f A Hnx HF. destruct f as [|f]; [lia|].
+    cbn [stmt_tks] in *. fold (prog_tks b) in *.
+    apply At_cons in A as [A0 A]. apply At_cons in A as [A1 A]. apply At_cons in A as [A2 A].
+    apply At_app in A as [Alo A]. apply At_cons in A as [A3 A]. apply At_app in A as [Ahi A].
+    apply At_cons in A as [A4 A]. apply At_app in A as [Ab Ar]. apply At_cons in Ar as [Ar _].
+    rewrite !map_length in *.
+    destruct (tv_is _ _ _ _ A0) as [T0 V0]. destruct (tv_is _ _ _ _ A1) as [T1 V1].
+    destruct (tv_is _ _ _ _ A2) as [T2 _]. destruct (tv_is _ _ _ _ A3) as [T3 _].
+    destruct (tv_is _ _ _ _ A4) as [T4 _].
+    set (p2 := (S (S (S pos)) + length lo)%nat) in *.
+    set (p3 := (S p2 + length hi)%nat) in *.
+    set (p4 := (S (S p3 + length (prog_tks b)))%nat).
+    destruct (pexp ts lx false lo (S (S (S pos))) f Hlo Alo ltac:(fold p2; rewrite T3; discriminate) ltac:(lia))
+      as [Elo Rlo]. fold p2 in Elo.
+    destruct (pexp ts lx false hi (S p2) f Hhi Ahi ltac:(fold p3; rewrite T4; discriminate) ltac:(lia))
+      as [Ehi Rhi]. fold p3 in Ehi.
+    destruct (H ts (S p3) f [] Ab Ar ltac:(lia)) as (b' & Rb & B & _). specialize (B eq_refl). fold p4 in B.
+    assert (Hnx' : tv (cur ts p4) = (nty, nv)).
+    { match type of Hnx with context [cur ts ?p] => replace p with p4 in Hnx
+        by (unfold p4, p3, p2; lens3; unfold tk, str in *; lia) end. exact Hnx. }
+    exists (AFor (t_value (cur ts (S pos))) (retok ts (S (S (S pos))) lo) (retok ts (S p2) hi) b'
+                 (cur ts p4) (cur ts (S pos))). split.
+    - rewrite (pdecl_kw ts sub f pos T0). unfold pkeyword. cbv zeta. rewrite V0. kwc.
+      unfold pfor. cbv zeta. unfold expect. rewrite (is_ty_eq _ _ T1), (is_ty_eq _ _ T2). rewrite Elo.
+      cbn [pbind]. rewrite (is_ty_eq _ _ T3). rewrite Ehi. cbn [pbind]. rewrite (is_ty_eq _ _ T4). rewrite B.
+      cbn [pbind fst snd app]. f_equal. f_equal. unfold p4, p3, p2. ll3.
+    - rewrite V1. apply R_For; [exact Rlo|exact Rhi|exact Rb|exact (fi_same _ _ _ Hbfi Hnx')|exact (fi_same _ _ _ Hfi A1)].
+  Qed.
+End Cases3.
